@@ -101,6 +101,13 @@ Definition forward_id32 (c : ccall) : cppcall :=
   | CTaskNeedsInput ti key id => PRequest (ti_in ti) (copy_n key) (id mod 4294967296)
   | _ => forward c
   end.
+(* a further hypothetical deviation: a zero-length value completes through `complete(ValueType())`, losing force_change *)
+Definition forward_empty_noforce (c : ccall) : cppcall :=
+  match c with
+  | CTaskIsComplete ti value force =>
+      if N.eqb (d_length value) 0 then PComplete (ti_in ti) [] false else PComplete (ti_in ti) (copy_n value) force
+  | _ => forward c
+  end.
 Definition forward_noschema (c : ccall) : cppcall :=
   match c with
   | CAttachDB e path _ => PAttachSQLite e (copy_n path) 0 true
